@@ -33,6 +33,59 @@ func extraFacts(lf *leanFile) {
 	retryFacts(lf)
 	remoteFacts(lf)
 	refFacts(lf)
+	copyFacts(lf)
+}
+
+// copyFacts: where copyGraph's task gives its permit back and takes one again - inside the
+// `if len(successors) != 0` block, around the dispatch of the successors - and nowhere else.
+func copyFacts(lf *leanFile) {
+	var inside []string
+	total := 0
+	fd := funcDecl("copy.go", "", "copyGraph")
+	if fd == nil {
+		miss("copy.go:copyGraph")
+	} else {
+		interesting := func(c *ast.CallExpr) string {
+			n := exprString(c.Fun)
+			if n == "region.End" || n == "region.Start" || n == "syncutil.Go" {
+				return n
+			}
+			return ""
+		}
+		found := false
+		ast.Inspect(fd.Body, func(n ast.Node) bool {
+			switch x := n.(type) {
+			case *ast.IfStmt:
+				if exprString(x.Cond) == "len(successors) != 0" {
+					found = true
+					ast.Inspect(x.Body, func(m ast.Node) bool {
+						if c, ok := m.(*ast.CallExpr); ok {
+							if nm := interesting(c); nm != "" {
+								inside = append(inside, nm)
+							}
+						}
+						return true
+					})
+				}
+			case *ast.CallExpr:
+				if nm := interesting(x); nm == "region.End" || nm == "region.Start" {
+					total++
+				}
+			}
+			return true
+		})
+		if !found {
+			miss("copy.go:copyGraph if len(successors) != 0")
+		}
+	}
+	regionInside := 0
+	for _, n := range inside {
+		if n != "syncutil.Go" {
+			regionInside++
+		}
+	}
+	lf.def("copyGraphDispatchCalls", "List String", leanStrList(inside))
+	lf.def("copyGraphRegionCallsElsewhere", "Nat", fmt.Sprint(total-regionInside))
 }
 
 // refFacts: ValidateRegistry accepts a registry only when the host net/url parsed out of it
